@@ -181,6 +181,13 @@ def rule_provenance(chk, tree):
     for loop in [l for l in ast.walk(fac) if isinstance(l, ast.For) and isinstance(l.iter, ast.Call)
                  and M.call_name(l.iter) == 'enumerate']:
         iv, nv = [U(e) for e in loop.target.elts]
+        earg = loop.iter.args[0] if loop.iter.args else None
+        full = isinstance(earg, ast.Tuple) and [M.const_str(e) for e in earg.elts] == order
+        chk.decide(full, 'criterion-provenance', 'index-is-position-in-criterion-tuple@%d' % loop.lineno, node=loop, file=INT,
+                   func='_get_dt_adapt_factors',
+                   detail_bad='factor slot index comes from enumerate(%s): it is not the position of the name in %s, so a maximum can '
+                              'land in another criterion\'s slot and formula' % (U(earg) if earg is not None else None, order),
+                   detail_ok='enumerate over the full criterion tuple')
         upd = [a for a in ast.walk(loop) if isinstance(a, ast.Assign) and isinstance(a.targets[0], ast.Subscript)
                and U(a.targets[0].value) == 'factors']
         for a in upd:
